@@ -14,6 +14,7 @@ package symgo
 
 import (
 	"go/token"
+	"go/types"
 
 	"golang.org/x/tools/go/ssa"
 )
@@ -106,6 +107,12 @@ func init() {
 	c06Redirect("(*"+repo+"compactindexsized.DB).Lookup", "c06Model_DBLookup")
 	c06Redirect(repo+"compactindexsized.IsNotFound", "c06Model_IsNotFound")
 	c06Redirect("(*"+repo+"gsfa/manifest.Manifest).Close", "c06Model_ManifestClose")
+	// C06.open drives the real NewGsfaWriter / NewGsfaReader: the manifest and the creation /
+	// opening of the pubkey index (metadata, compactindexsized header: C10, C04) are cut
+	c06Redirect(repo+"gsfa/manifest.NewManifest", "c06Model_NewManifest")
+	c06Redirect(repo+"indexes.NewWriter_PubkeyToOffsetAndSize", "c06Model_NewIndexWriter")
+	c06Redirect(repo+"indexes.OpenWithReader_PubkeyToOffsetAndSize", "c06Model_OpenIndexReader")
+	c06Redirect("(*"+repo+"indexes.PubkeyToOffsetAndSize_Reader).Close", "c06Model_IndexReaderClose")
 	// solana-go cannot be a source root (its package initialisation decodes base58 constants)
 	c06Redirect("(github.com/gagliardetto/solana-go.PublicKeySlice).Sort", "c06Model_PKSort")
 	c06Redirect("(github.com/gagliardetto/solana-go.PublicKeySlice).Dedupe", "c06Model_PKDedupe")
@@ -165,6 +172,16 @@ func init() {
 		return nil
 	}
 
+	// verifC06MkDir(path): directories for the file model (memfs knows files only). The first call
+	// wraps os.Stat (a registered directory is reported with IsDir() == true) and os.MkdirAll
+	// (registers the directory); everything else is left to memfs. Per-path state.
+	verifIntrinsics["verifC06MkDir"] = func(fr *frame, args []value) value {
+		stub("verifC06MkDir (directories of the file model: os.MkdirAll registers, os.Stat reports IsDir)")
+		c06InstallDirs(fr.i)
+		c06DirSet()[args[0].(string)] = true
+		return nil
+	}
+
 	// verifC06QuietMutex(mu *sync.Mutex): Lock/Unlock of this mutex are not scheduling points.
 	// Sound for a mutex that cannot influence another goroutine: one that is only ever used by
 	// a single goroutine, or one that is only acquired while another, scheduled, mutex is held
@@ -219,3 +236,52 @@ var (
 	c06QuietOwner     *scheduler
 	c06QuietInstalled bool
 )
+
+var (
+	c06Dirs          map[string]bool
+	c06DirsOwner     *scheduler
+	c06DirsInstalled bool
+	c06DirInfoT      *types.Named
+)
+
+func c06DirSet() map[string]bool {
+	if c06DirsOwner != sched {
+		c06DirsOwner = sched
+		c06Dirs = map[string]bool{}
+	}
+	return c06Dirs
+}
+
+func c06InstallDirs(i *interpreter) {
+	if c06DirsInstalled {
+		return
+	}
+	c06DirsInstalled = true
+	obj := types.NewTypeName(token.NoPos, rtPkg, "dirInfo", nil)
+	st := types.NewStruct([]*types.Var{types.NewField(token.NoPos, rtPkg, "name", types.Typ[types.String], false)}, nil)
+	c06DirInfoT = types.NewNamed(obj, st, nil)
+	add := func(name string, res types.Type, impl externalFn) {
+		recv := types.NewVar(token.NoPos, rtPkg, "di", types.NewPointer(c06DirInfoT))
+		sig := types.NewSignatureType(recv, nil, nil, nil, types.NewTuple(types.NewVar(token.NoPos, rtPkg, "", res)), false)
+		c06DirInfoT.AddMethod(types.NewFunc(token.NoPos, rtPkg, name, sig))
+		engineFns["dirInfo."+name] = i.prog.NewFunction(name, sig, "engine")
+		externals["(*symgo/rt.dirInfo)."+name] = impl
+	}
+	add("Size", types.Typ[types.Int64], func(fr *frame, args []value) value { return int64(4096) })
+	add("Name", types.Typ[types.String], func(fr *frame, args []value) value { return (*args[0].(*value)).(structure)[0] })
+	add("IsDir", types.Typ[types.Bool], func(fr *frame, args []value) value { return true })
+	origStat, origMkdirAll := externals["os.Stat"], externals["os.MkdirAll"]
+	externals["os.Stat"] = func(fr *frame, args []value) value {
+		if name := args[0].(string); c06DirsOwner == sched && c06Dirs[name] {
+			cell := value(structure{name})
+			return tuple{iface{t: types.NewPointer(c06DirInfoT), v: &cell}, iface{}}
+		}
+		return origStat(fr, args)
+	}
+	externals["os.MkdirAll"] = func(fr *frame, args []value) value {
+		if c06DirsOwner == sched {
+			c06Dirs[args[0].(string)] = true
+		}
+		return origMkdirAll(fr, args)
+	}
+}
